@@ -282,7 +282,7 @@ func streamReplay(args []string) int {
 // V: random concurrent drivers with event recording
 
 type sevent struct {
-	T    int    `json:"t"`  // trace number
+	T    int    `json:"t"` // trace number
 	Seq  int64  `json:"seq"`
 	Ev   string `json:"ev"`
 	ID   int    `json:"id"`
